@@ -70,7 +70,7 @@ func (ex *Exec) call(fr *Frame, cc *ssa.CallCommon, in ssa.Instruction, st *Stat
 		// pointer receiver nil check is the callee's business; value receivers were dereferenced by the caller
 	}
 	key := ex.Prog.FuncKey(callee)
-	if !ex.W.inModule(pkgOf(callee)) || len(callee.Blocks) == 0 {
+	if !ex.W.inModule(pkgOf(callee)) || len(callee.Blocks) == 0 || opaquePkg(pkgOf(callee)) {
 		return ex.externalCall(fr, callee, args, st, cur, mkRes, in)
 	}
 	pc := ex.Prog.ContractsFor(callee)
@@ -112,6 +112,11 @@ func (ex *Exec) call(fr *Frame, cc *ssa.CallCommon, in ssa.Instruction, st *Stat
 	ex.note(ex.Abstr, "call-havoc:"+shortKey(key))
 	ex.applyCalleeEffects(callee, args, st)
 	return mkRes("r_" + callee.Name()), cur
+}
+
+// opaquePkg: module packages treated like external code (no effect on modelled state).
+func opaquePkg(p *types.Package) bool {
+	return p != nil && strings.HasSuffix(p.Path(), "/vaxis/log")
 }
 
 func hasSpec(fc *FuncContract) bool {
